@@ -254,6 +254,9 @@ func NewCalculator(
 
 	// account for large standard deviations or peaks beyond the window
 	coveredRegion := gauss.CDF(float64(repeatWindow-frequency)) - gauss.CDF(0)
+	if coveredRegion <= 0 {
+		return nil, errors.New("peak and standard deviation leave no load inside the repeat window")
+	}
 	multiplier /= coveredRegion
 
 	return &Calculator{
